@@ -1,7 +1,7 @@
 (** C07 — RETE agenda order, no-loop, group exclusivity and termination.
     Statements only; proofs in Proofs/ReteAgendaProofs.v.  Bounds come from the current source through
     Generated/Consts.v (tools/consts.py); TypedReteUlEngine::fire_all is the repaired one (748fa6c). *)
-From RRE Require Import Base.Sx Generated.Consts Model.ReteAgenda Proofs.ReteAgendaProofs Proofs.ReteAgendaHistoryProofs.
+From RRE Require Import Base.Sx Generated.Consts Model.ReteAgenda Proofs.ReteAgendaProofs Proofs.ReteAgendaHistoryProofs Proofs.AgendaOrdProofs.
 Open Scope Z_scope.
 
 (** get_next_activation returns an activation that is eligible — not a no-loop rule that fired
@@ -15,6 +15,16 @@ Theorem C07_next_is_eligible_and_greatest : forall n a a' m,
                forall y, In y heap -> eligible a y = true -> better y m = false.
 Proof. exact next_is_eligible_and_greatest. Qed.
 Print Assumptions C07_next_is_eligible_and_greatest.
+
+(** [better], the order all of these statements use, IS the comparison chain of the current source: tools/consts.py reads
+    `impl Ord for Activation` (rete/agenda.rs) on every run into Generated/Consts.v [agenda_ord] - a list of (field, reversed?)
+    pairs - and [better a b] holds exactly when a is greater than b in that lexicographic order (salience ascending as
+    "greater", then creation time reversed: earlier-created is greater).  A comparator that ties on another field, or in
+    another direction, no longer checks here. *)
+Theorem C07_ordering_is_the_sources : forall a b,
+  better a b = match lex_cmp agenda_ord a b with Gt => true | _ => false end.
+Proof. exact better_is_source_ord. Qed.
+Print Assumptions C07_ordering_is_the_sources.
 
 (** popping the heap until an eligible activation appears = taking the greatest eligible one and
     dropping everything that ranked above it *)
